@@ -10,7 +10,7 @@ CONSTANTS
   Hints = {"-", "struct"}
   TMenu = {"ghosts", "where_clause", "child_parents", "parent", "literal", "type_hint", "children", "ghost", "child", "bogus"}
   MMenu = {"map", "literal"}
-  FixedTraits = <<>>
+  FixedTraits <- NoTraits
   SpellAll = FALSE
   TCps = {"-", "A"}
   MCps = {"-", "A", "Z"}
